@@ -1,4 +1,4 @@
-use std::sync::{Arc, atomic::{AtomicUsize, Ordering}};
+use std::sync::{Arc, atomic::{AtomicBool, AtomicUsize, Ordering}};
 
 use crossbeam::utils::Backoff;
 use log::trace;
@@ -21,9 +21,10 @@ pub fn new<T>(memory_capacity: usize) -> (Sender<T>, Receiver<T>) {
     #[cfg(rjrssync_verif)]
     let memory_capacity = verif_capacity_override().unwrap_or(memory_capacity);
     let counter = Arc::new(AtomicUsize::new(0));
+    let receiver_dropped = Arc::new(AtomicBool::new(false));
     (
-        Sender::<T> { inner: s, memory_capacity, channel_memory_usage: counter.clone() },
-        Receiver::<T> { inner: r, channel_memory_usage: counter },
+        Sender::<T> { inner: s, memory_capacity, channel_memory_usage: counter.clone(), receiver_dropped: receiver_dropped.clone() },
+        Receiver::<T> { inner: r, channel_memory_usage: counter, receiver_dropped },
     )
 }
 
@@ -48,6 +49,8 @@ pub struct Sender<T> {
     inner: crossbeam::channel::Sender<(T, usize)>,
     memory_capacity: usize,
     channel_memory_usage: Arc<AtomicUsize>,
+    /// Set once the receiving end has been dropped, so that we don't wait for space which will never become available.
+    receiver_dropped: Arc<AtomicBool>,
 }
 
 impl<T: Serialize> Sender<T> {
@@ -67,6 +70,10 @@ impl<T: Serialize> Sender<T> {
             trace!("Blocking to wait for memory capacity");
             let backoff = Backoff::new();
             while self.channel_memory_usage.load(Ordering::Relaxed) - memory_usage > self.memory_capacity {
+                if self.receiver_dropped.load(Ordering::Relaxed) {
+                    // Nobody is going to free up any space - the send below will report the disconnection
+                    break;
+                }
                 backoff.snooze();
             }
         }
@@ -80,6 +87,14 @@ impl<T: Serialize> Sender<T> {
 pub struct Receiver<T> {
     inner: crossbeam::channel::Receiver<(T, usize)>,
     channel_memory_usage: Arc<AtomicUsize>,
+    receiver_dropped: Arc<AtomicBool>,
+}
+
+impl<T> Drop for Receiver<T> {
+    fn drop(&mut self) {
+        // Wake up a sender which is blocked waiting for space (see Sender::send)
+        self.receiver_dropped.store(true, Ordering::Relaxed);
+    }
 }
 
 impl<T> Receiver<T> {
